@@ -10,11 +10,14 @@ import Abasic.Ref.Expr
   redundant parentheses never change a value, ABS/INT — and the operator tables
   of the token-stream evaluator: each binary tier accepts exactly the operators
   of its precedence level, in the order OR < AND < comparison < +,- < *,/ < ^.
-  `eval_render` (the token-stream evaluator on `render e` computes `foldE e`,
-  for every tree) is listed as open; a reduced version was proved in the
-  calibration (notes/calibration-eval-render).  The check rests for it on the
-  correspondence slice (exhaustive small trees + random trees, implementation vs
-  model vs the spec's fold computed by the Lean driver).
+  Continued in C02More.lean (with Proofs/ExprLemmas.lean): `eval_render` — for
+  EVERY syntax tree, the token-stream evaluator run on `render e` consumes
+  exactly the rendering and returns `foldE e` (value case: same value, state
+  unchanged but for the cursor and the read counter; error case: same error,
+  nesting counter restored), with `paren_irrelevant_eval` as a corollary about
+  the evaluator itself.  The correspondence slice (exhaustive small trees +
+  random trees, implementation vs model vs the spec's fold computed by the Lean
+  driver) ties evaluator, renderer and fold to the Rust code.
 -/
 namespace Abasic.Props.C02
 open Abasic Abasic.Ref
